@@ -228,23 +228,47 @@ class _Budget(Exception):
     pass
 
 
-def run_with_budget(fn, args, kwargs, budget):
-    """call natively, counting line events; raises _Budget when the budget is exhausted"""
-    count = [0]
+def loop_header_lines(fn):
+    """absolute line numbers of the `while` / `for` headers of fn"""
+    node = fn_node(fn)
+    base = fn.__code__.co_firstlineno - node.lineno
+    # decorators shift co_firstlineno to the first decorator line; node.lineno is the `def` line in the dedented source
+    import inspect as _i
+
+    src, first = _i.getsourcelines(fn)
+    return {first + n.lineno - 1 for n in ast.walk(node) if isinstance(n, (ast.While, ast.For))}
+
+
+def run_with_budget(fn, args, kwargs, max_iterations, max_events=2000000):
+    """call natively, counting how often each loop header of fn is executed; raises _Budget when one loop header
+    is executed more than max_iterations times (or the overall line-event budget is exhausted)"""
+    headers = loop_header_lines(fn)
+    code = fn.__code__
+    counts = {}
+    total = [0]
 
     def tracer(frame, event, arg):
         if event == "line":
-            count[0] += 1
-            if count[0] > budget:
+            total[0] += 1
+            if total[0] > max_events:
                 raise _Budget()
+            if frame.f_code is code and frame.f_lineno in headers:
+                c = counts.get(frame.f_lineno, 0) + 1
+                counts[frame.f_lineno] = c
+                if c > max_iterations:
+                    raise _Budget()
         return tracer
 
     old = sys.gettrace()
     sys.settrace(tracer)
     try:
-        return fn(*args, **kwargs), count[0]
+        return fn(*args, **kwargs), counts
     finally:
         sys.settrace(old)
+
+
+def iteration_bound(n):
+    return 2 * n + 8
 
 
 class BoundedTermination(Unit):
@@ -286,11 +310,8 @@ class BoundedTermination(Unit):
 
         return {"contracts": l0_contracts()}
 
-    @property
-    def loop_bound(self):
-        return 40
-
-    concrete_loop_bound = 60
+    loop_bound = 72  # iteration_bound(32): the largest buffer of the thorough tier; per case the clause uses 2n+8
+    concrete_loop_bound = 72
 
     def run(self, X, case, a):
         cls, fn, kind = self._fn(case)
@@ -301,9 +322,10 @@ class BoundedTermination(Unit):
         if kind == "class":
             args = [cls] + args
         if X.symbolic:
+            X.ctx.loop_bound = X.ctx.concrete_loop_bound = iteration_bound(case["n"])
             return X.call(fn, *args, **kw)
         try:
-            r, n = run_with_budget(fn, args, kw, 20000 + 2000 * len(a.data))
+            r, n = run_with_budget(fn, args, kw, iteration_bound(case["n"]) + 1)
             return r
         except _Budget:
             from pyvc.values import LoopBound
@@ -311,7 +333,7 @@ class BoundedTermination(Unit):
             raise LoopBound()
 
     def ensures(self, case, a, out, X):
-        yield "C11", "decoder-terminates-within-len+2-iterations", out.kind != "loopbound"
+        yield "C11", "no-loop-of-the-decoder-iterates-more-than-2*len+8-times", out.kind != "loopbound"
 
 
 def replay_native_budget(unit, case, inputs):
